@@ -9,7 +9,7 @@ open VgiVerif.Gen.C04 (Shape)
 def repaired : Shape :=
   { drainVersion := true, drainParams := true, drainInit := true, drainUnknown := false, initChecks := true,
     cliDrainOverErr := true, cliDrainSurvivesCb := true, unaryDrainOnCb := true, hdrDrainOnCb := true,
-    hdrAbortCloses := true, emptyRequestReplies := true, initErrorFlushesLogs := true, failFlushesLogs := true, unaryDrainBeforeDecode := true }
+    hdrAbortCloses := true, emptyRequestReplies := true, initErrorFlushesLogs := true, failFlushesLogs := true, unaryDrainBeforeDecode := true, requestBuiltBeforeStream := true }
 
 namespace Aux
 
@@ -27,6 +27,7 @@ namespace Aux
 @[simp] theorem rep_initErrorFlushesLogs : repaired.initErrorFlushesLogs = true := rfl
 @[simp] theorem rep_failFlushesLogs : repaired.failFlushesLogs = true := rfl
 @[simp] theorem rep_unaryDrainBeforeDecode : repaired.unaryDrainBeforeDecode = true := rfl
+@[simp] theorem rep_requestBuiltBeforeStream : repaired.requestBuiltBeforeStream = true := rfl
 
 def its (xs : List SItem) : List SFr := xs.map .it
 
@@ -352,7 +353,7 @@ theorem read_core (svc : Svc) (pol : Nat → Bool) (p : Purpose) (res : Res) (n 
       exact closing _ _ _ rfl hdr
 
 theorem execOp_eq {sh : Shape} {svc : Svc} {pol : Nat → Bool} {op : Op} {c2s : List CFr} {s2c : List SFr} {srv : SrvPc}
-    {cli : Cli} {wc : List CFr} {ws : List SFr} {cli' : Cli} {out : List CFr} (h : cliStart op cli = (cli', out)) :
+    {cli : Cli} {wc : List CFr} {ws : List SFr} {cli' : Cli} {out : List CFr} (h : cliStart sh op cli = (cli', out)) :
     execOp sh svc pol op ⟨c2s, s2c, srv, cli, wc, ws⟩
       = round sh svc pol (round sh svc pol (round sh svc pol ⟨c2s ++ out, s2c, srv, cli', wc ++ out, ws⟩)) := by
   simp [execOp, h]
@@ -377,7 +378,7 @@ theorem step_read (svc : Svc) (pol : Nat → Bool) (p : Purpose) {st : St} (h : 
     rw [this]; exact Phase.closed s _ n wc ws hs
   | refused xs res n wc ws =>
     -- the server waits for (and discards) the input stream; the client opens it, reads the error stream, closes
-    have hstart : cliStart (readOp p) ⟨some .fresh, none, res, n⟩
+    have hstart : cliStart repaired (readOp p) ⟨some .fresh, none, res, n⟩
         = (⟨some ⟨true, false, false, false⟩, some (.sessOpen p), res, n⟩, [.op, .it .inp]) := by
       cases p <;> simp [readOp, cliStart, Sess.fresh]
     rw [execOp_eq hstart, List.nil_append]
@@ -392,7 +393,7 @@ theorem step_read (svc : Svc) (pol : Nat → Bool) (p : Purpose) {st : St} (h : 
       exact read_core svc pol p res n _ _ _ xs _ (Or.inr ⟨Or.inr rfl, rfl⟩) hcl
   | fresh ex hdr il steps res n wc ws =>
     -- the input stream is opened with the first batch; the server opens its output stream and runs process() 0
-    have hstart : cliStart (readOp p) ⟨some .fresh, none, res, n⟩
+    have hstart : cliStart repaired (readOp p) ⟨some .fresh, none, res, n⟩
         = (⟨some ⟨true, false, false, false⟩, some (.sessOpen p), res, n⟩, [.op, .it .inp]) := by
       cases p <;> simp [readOp, cliStart, Sess.fresh]
     rw [execOp_eq hstart, List.nil_append]
@@ -426,7 +427,7 @@ theorem step_read (svc : Svc) (pol : Nat → Bool) (p : Purpose) {st : St} (h : 
         | done => exact Or.inr ⟨Or.inl (by simp), by simp⟩
         | fail => exact Or.inr ⟨Or.inl (by simp), by simp⟩
   | live ex steps k pend res n wc ws hne =>
-    have hstart : cliStart (readOp p) ⟨some both, none, res, n⟩
+    have hstart : cliStart repaired (readOp p) ⟨some both, none, res, n⟩
         = (⟨some both, some (.sessRead p), res, n⟩, [.it .inp]) := by
       cases p <;> simp [readOp, cliStart, both]
     rw [execOp_eq hstart, List.nil_append]
@@ -456,7 +457,7 @@ theorem step_read (svc : Svc) (pol : Nat → Bool) (p : Purpose) {st : St} (h : 
         | done => exact Or.inr ⟨Or.inl (by simp), by simp⟩
         | fail => exact Or.inr ⟨Or.inl (by simp), by simp⟩
   | ending srv pend res n wc ws hdr =>
-    have hstart : cliStart (readOp p) ⟨some both, none, res, n⟩
+    have hstart : cliStart repaired (readOp p) ⟨some both, none, res, n⟩
         = (⟨some both, some (.sessRead p), res, n⟩, [.it .inp]) := by
       cases p <;> simp [readOp, cliStart, both]
     rw [execOp_eq hstart, List.nil_append]
@@ -510,7 +511,7 @@ theorem step_end (svc : Svc) (pol : Nat → Bool) (c : Bool) {st : St} (h : Phas
     rw [this]; exact Done.closed s _ n wc ws hs
   | refused xs res n wc ws =>
     let extra : List CFr := if c then [] else [.it .cancel]
-    have hstart : cliStart (if c then .close else .cancel) ⟨some .fresh, none, res, n⟩
+    have hstart : cliStart repaired (if c then .close else .cancel) ⟨some .fresh, none, res, n⟩
         = (⟨some ⟨true, false, false, true⟩, some (.closeOpen (if c then .closed else .cancelled)), res, n⟩,
            .op :: (extra ++ [.eos])) := by
       cases c <;> simp [cliStart, Sess.fresh, Sess.close, endInput, extra]
@@ -527,7 +528,7 @@ theorem step_end (svc : Svc) (pol : Nat → Bool) (c : Bool) {st : St} (h : Phas
     have hhl : (if hdr then [] else logs il) = its hl := by
       cases hdr <;> simp [hl, its_logs]
     let extra : List CFr := if c then [] else [.it .cancel]
-    have hstart : cliStart (if c then .close else .cancel) ⟨some .fresh, none, res, n⟩
+    have hstart : cliStart repaired (if c then .close else .cancel) ⟨some .fresh, none, res, n⟩
         = (⟨some ⟨true, false, false, true⟩, some (.closeOpen (if c then .closed else .cancelled)), res, n⟩,
            .op :: (extra ++ [.eos])) := by
       cases c <;> simp [cliStart, Sess.fresh, Sess.close, endInput, extra]
@@ -542,7 +543,7 @@ theorem step_end (svc : Svc) (pol : Nat → Bool) (c : Bool) {st : St} (h : Phas
     exact Done.closed _ _ _ _ _ rfl
   | live ex steps k pend res n wc ws hne =>
     let extra : List CFr := if c then [] else [.it .cancel]
-    have hstart : cliStart (if c then .close else .cancel) ⟨some both, none, res, n⟩
+    have hstart : cliStart repaired (if c then .close else .cancel) ⟨some both, none, res, n⟩
         = (⟨some ⟨true, true, false, true⟩, some (.sessDrain (if c then .closed else .cancelled) true), res, n⟩,
            extra ++ [.eos]) := by
       cases c <;> simp [cliStart, both, Sess.close, endInput, extra]
@@ -553,7 +554,7 @@ theorem step_end (svc : Svc) (pol : Nat → Bool) (c : Bool) {st : St} (h : Phas
     exact Done.closed _ _ _ _ _ rfl
   | ending srv pend res n wc ws hdr =>
     let extra : List CFr := if c then [] else [.it .cancel]
-    have hstart : cliStart (if c then .close else .cancel) ⟨some both, none, res, n⟩
+    have hstart : cliStart repaired (if c then .close else .cancel) ⟨some both, none, res, n⟩
         = (⟨some ⟨true, true, false, true⟩, some (.sessDrain (if c then .closed else .cancelled) true), res, n⟩,
            extra ++ [.eos]) := by
       cases c <;> simp [cliStart, both, Sess.close, endInput, extra]
@@ -569,7 +570,7 @@ theorem step_end (svc : Svc) (pol : Nat → Bool) (c : Bool) {st : St} (h : Phas
     exact Done.closed _ _ _ _ _ rfl
   | ended srv res n wc ws hdr =>
     let extra : List CFr := if c then [] else [.it .cancel]
-    have hstart : cliStart (if c then .close else .cancel) ⟨some ⟨true, true, true, false⟩, none, res, n⟩
+    have hstart : cliStart repaired (if c then .close else .cancel) ⟨some ⟨true, true, true, false⟩, none, res, n⟩
         = (⟨some ⟨true, true, true, true⟩, none, if c then .closed else .cancelled, n⟩, extra ++ [.eos]) := by
       cases c <;> simp [cliStart, Sess.close, endInput, extra]
     have hsrv : srvFold repaired svc srv ([] ++ (extra ++ [.eos])) = (.boundary, [], []) := by
@@ -641,10 +642,18 @@ theorem dispatch_unary {svc : Svc} {r : Request}
 theorem unary_call (svc : Svc) (pol : Nat → Bool) (r : Request)
     (hag : ∀ m, svc.methods[r.method]? = some m → ∃ n b, m = .unary n b) :
     Done (execOp repaired svc pol (.call r) St.init) := by
+  by_cases hrej : r.clientRejects = true
+  · -- the client raises before anything is on the wire
+    have hstart : cliStart repaired (.call r) Cli.idle = (⟨none, none, .raised, 0⟩, []) := by
+      simp [cliStart, Cli.idle, hrej]
+    show Done (execOp repaired svc pol (.call r) ⟨[], [], .boundary, Cli.idle, [], []⟩)
+    rw [execOp_eq hstart, List.append_nil, round_quiet, round_quiet, round_quiet]
+    exact Done.noSess ..
+  have hrej : r.clientRejects = false := by simpa using hrej
   obtain ⟨xs, hd⟩ := dispatch_unary hag
   obtain ⟨r', n', hc⟩ := cliFold_unary pol none r.resultDecodes xs .none 0
-  have hstart : cliStart (.call r) Cli.idle = (⟨none, some (.unaryOpen r.resultDecodes), .none, 0⟩, reqFrames r) := by
-    simp [cliStart, Cli.idle]
+  have hstart : cliStart repaired (.call r) Cli.idle = (⟨none, some (.unaryOpen r.resultDecodes), .none, 0⟩, reqFrames r) := by
+    simp [cliStart, Cli.idle, hrej]
   have hsrv : srvFold repaired svc .boundary ([] ++ reqFrames r) = (.boundary, [], .op :: (its xs ++ [.eos])) := by
     rw [List.nil_append, srvFold_req, hd]
   have hcli : cliFold repaired pol ⟨none, some (.unaryOpen r.resultDecodes), .none, 0⟩ ([] ++ .op :: (its xs ++ [.eos]))
@@ -698,10 +707,16 @@ theorem open_call (svc : Svc) (pol : Nat → Bool) (r : Request) (hdr : Bool)
     (hk : hdr = false → r.method < svc.methods.length) :
     Phase (execOp repaired svc pol (.open_ r hdr) St.init) := by
   show Phase (execOp repaired svc pol (.open_ r hdr) ⟨[], [], .boundary, Cli.idle, [], []⟩)
+  by_cases hrej : r.clientRejects = true
+  · have hstart : cliStart repaired (.open_ r hdr) Cli.idle = (⟨none, none, .raised, 0⟩, []) := by
+      simp [cliStart, Cli.idle, hrej]
+    rw [execOp_eq hstart, List.append_nil, round_quiet, round_quiet, round_quiet]
+    exact Phase.noSess ..
+  have hrej : r.clientRejects = false := by simpa using hrej
   cases hdr with
   | false =>
-    have hstart : cliStart (.open_ r false) Cli.idle = (⟨some .fresh, none, .opened, 0⟩, reqFrames r) := by
-      simp [cliStart]
+    have hstart : cliStart repaired (.open_ r false) Cli.idle = (⟨some .fresh, none, .opened, 0⟩, reqFrames r) := by
+      simp [cliStart, hrej]
     rw [execOp_eq hstart]
     apply phase_rounds1
     rcases dispatch_stream hag hk with ⟨xs, _, hd⟩ | ⟨ex, il, steps, hd⟩
@@ -714,8 +729,8 @@ theorem open_call (svc : Svc) (pol : Nat → Bool) (r : Request) (hdr : Bool)
       rw [round_eq hsrv (cliFold_idle repaired pol _ _ _ _)]
       exact Phase.fresh ..
   | true =>
-    have hstart : cliStart (.open_ r true) Cli.idle = (⟨none, some .hdrOpen, .none, 0⟩, reqFrames r) := by
-      simp [cliStart]
+    have hstart : cliStart repaired (.open_ r true) Cli.idle = (⟨none, some .hdrOpen, .none, 0⟩, reqFrames r) := by
+      simp [cliStart, hrej]
     rw [execOp_eq hstart]
     have hopen : ∀ fs, cliFold repaired pol ⟨none, some .hdrOpen, .none, 0⟩ ([] ++ .op :: fs)
         = cliFold repaired pol ⟨none, some .hdrRead, .none, 0⟩ fs := by
@@ -850,11 +865,11 @@ theorem C04_next_partial (svc : Svc) (hist : List Call) (c : Call) (hag : Spec.A
 
 /-- non-vacuity: a service and a history with faults that satisfy the hypotheses -/
 example : Spec.AllAgree ⟨[.unary 2 true, .stream false false 1 .raises []]⟩
-      [.stream (fun n => n == 0) ⟨1, true, true, true⟩ false [.tick, .cancel], .unary (fun _ => true) ⟨0, true, false, true⟩,
-       .unary (fun _ => false) ⟨7, true, true, true⟩] ∧
+      [.stream (fun n => n == 0) ⟨1, true, true, false, true⟩ false [.tick, .cancel], .unary (fun _ => true) ⟨0, true, false, false, true⟩,
+       .unary (fun _ => false) ⟨7, true, true, false, true⟩] ∧
     Spec.AllKnownIfHeaderless ⟨[.unary 2 true, .stream false false 1 .raises []]⟩
-      [.stream (fun n => n == 0) ⟨1, true, true, true⟩ false [.tick, .cancel], .unary (fun _ => true) ⟨0, true, false, true⟩,
-       .unary (fun _ => false) ⟨7, true, true, true⟩] := by
+      [.stream (fun n => n == 0) ⟨1, true, true, false, true⟩ false [.tick, .cancel], .unary (fun _ => true) ⟨0, true, false, false, true⟩,
+       .unary (fun _ => false) ⟨7, true, true, false, true⟩] := by
   constructor <;> intro c hc <;> simp at hc <;> rcases hc with rfl | rfl | rfl <;>
     simp [Spec.Agree, Spec.KnownIfHeaderless]
 
